@@ -1,5 +1,4 @@
 CONSTANT Tier = "quick"
 INIT Init
 NEXT Next
-INVARIANT Theorems
 INVARIANT Emit
